@@ -276,3 +276,23 @@ Proof.
   rewrite (tie_vc_happened_before a b order Hord), Ea, Eb.
   exact (vector_code_iff tr ts Hs i j ti tj Hi Hj).
 Qed.
+
+(** ... and the code's own [VectorClock.is_concurrent] (two evaluations of
+    [happened_before], each with its own arbitrary iteration order) is true exactly
+    when neither event happened before the other. *)
+Theorem vector_code_is_concurrent tr ts : stamps vector_code tr = Some ts ->
+  forall i j ti tj, nth_error ts i = Some ti -> nth_error ts j = Some tj ->
+  forall a b o1 o2, VectorClock__vector a = ti -> VectorClock__vector b = tj ->
+  (forall k, In k o1 <-> In k (VectorClock_happened_before_setiter_elems a b)) ->
+  (forall k, In k o2 <-> In k (VectorClock_happened_before_setiter_elems b a)) ->
+  (VectorClock_is_concurrent a b o1 o2 = true <-> ~ hb tr i j /\ ~ hb tr j i).
+Proof.
+  intros Hs i j ti tj Hi Hj a b o1 o2 Ea Eb H1 H2. unfold VectorClock_is_concurrent.
+  pose proof (vector_code_happened_before tr ts Hs i j ti tj Hi Hj a b o1 Ea Eb H1) as A.
+  pose proof (vector_code_happened_before tr ts Hs j i tj ti Hj Hi b a o2 Eb Ea H2) as B.
+  destruct (VectorClock_happened_before a b o1), (VectorClock_happened_before b a o2); cbn.
+  - split; [discriminate|]. intros [N1 _]. exfalso. apply N1, A. reflexivity.
+  - split; [discriminate|]. intros [N1 _]. exfalso. apply N1, A. reflexivity.
+  - split; [discriminate|]. intros [_ N2]. exfalso. apply N2, B. reflexivity.
+  - split; [|reflexivity]. intros _. split; intros X; [apply A in X|apply B in X]; discriminate.
+Qed.
